@@ -89,3 +89,16 @@ Theorem nx_to_gml_sel_charge Lg Rg Kg reindex eh : nx_to_gml_sel asel_charge Lg 
 Proof.
   unfold nx_to_gml_sel, nx_to_gml. cbv zeta. destruct reindex; rewrite find_changed_sel_charge; reflexivity.
 Qed.
+
+(** ** GraphToMol options: the defaults graph_to_smi uses are [graph_to_mol]; ignore_bond_order only touches bond types;
+    use_h_count=False only drops the explicit hydrogen counts *)
+Lemma g2m_bond_gen_false ids e : g2m_bond_gen false ids e = g2m_bond ids e.
+Proof. destruct e as [[u v] x]. unfold g2m_bond_gen, g2m_bond. destruct (e_ord x) as [[o|a b]|]; reflexivity. Qed.
+Theorem graph_to_mol_gen_default (g : gr) : graph_to_mol_gen false true g = graph_to_mol g.
+Proof.
+  unfold graph_to_mol_gen, graph_to_mol. rewrite (map_ext _ _ (g2m_bond_gen_false (node_ids g))).
+  destruct (forallb _ _); [|reflexivity]. f_equal.
+Qed.
+Theorem graph_to_mol_gen_atoms ignore (g : gr) atoms bonds :
+  graph_to_mol_gen ignore true g = Some (atoms, bonds) -> atoms = map (fun p : N * natt => g2m_atom (snd p)) (gnodes g).
+Proof. unfold graph_to_mol_gen. destruct (forallb _ _); [|discriminate]. intros [= <- _]. reflexivity. Qed.
